@@ -41,9 +41,9 @@ def items(ctx):
         for l2 in (1, 2, 3):
             for a in itertools.product(vals, repeat=l1):
                 for b in itertools.product(vals, repeat=l2):
-                    if rng.random() < (0.25 if q else 1.0):
+                    if rng.random() < (0.5 if q else 1.0):
                         add(a, b)
-    for _ in range(250 if q else 5000):
+    for _ in range(700 if q else 5000):
         l1, l2 = rng.randint(1, 5), rng.randint(1, 4)
         base = rng.choice([0, 1])
         add([base + rng.choice((0, 1, 2, 3)) for _ in range(l1)], [base + rng.choice((0, 1, 2, 3)) for _ in range(l2)])
